@@ -125,7 +125,7 @@ func (m *Machine) global(g *ssa.Global) *value {
 	}
 	if g.Pkg != nil {
 		path := g.Pkg.Pkg.Path()
-		if !m.prog.isTargetPkg(path) && !m.prog.initAllow[path] && path != "errors" && path != "internal/cpu" {
+		if !m.prog.isTargetPkg(path) && !m.prog.initAllow[path] && path != "errors" && path != "internal/cpu" && !(path == "time" && (g.Name() == "Local" || g.Name() == "UTC")) {
 			if path == "unicode" {
 				panic(unsupported{"read of unicode table " + g.Name() + " (package init is skipped)"})
 			}
@@ -133,6 +133,11 @@ func (m *Machine) global(g *ssa.Global) *value {
 		}
 	}
 	cell := zero(deref(g.Type()))
+	if g.Pkg != nil && g.Pkg.Pkg.Path() == "time" && (g.Name() == "Local" || g.Name() == "UTC") {
+		// *time.Location globals: a non-nil opaque location (time is abstracted to UnixNano)
+		loc := zero(deref(deref(g.Type())))
+		cell = &loc
+	}
 	p := &cell
 	m.globals[g] = p
 	return p
@@ -776,6 +781,29 @@ func (m *Machine) doSelect(fr *frame, instr *ssa.Select) value {
 			c.v = fr.get(st.Send)
 		}
 		cases = append(cases, c)
+	}
+	if m.seg != nil {
+		// tsgen: only receives from registered signal channels (ready iff closed)
+		chosen := -1
+		for i, c := range cases {
+			if c.send || c.ch == nil || !c.ch.shared {
+				panic(unsupported{"select case on a channel that is not registered with vrtSharedChan"})
+			}
+			if m.decide(c.ch.closedCell, "select-chan-closed") {
+				chosen = i
+				break
+			}
+		}
+		if chosen < 0 && instr.Blocking {
+			panic(blockedSignal{"select"})
+		}
+		r := tuple{chosen, false}
+		for _, st := range instr.States {
+			if st.Dir == types.RecvOnly {
+				r = append(r, zero(st.Chan.Type().Underlying().(*types.Chan).Elem()))
+			}
+		}
+		return r
 	}
 	readyIdx := func() int {
 		for i, c := range cases {
